@@ -15,6 +15,17 @@ clause -- the damage shows up in the property's own post-conditions on the real 
   abort    before a real call, the previous call of the same routine is started again on its old arguments and
            killed by an exception raised at the j-th executed line of the routine's body (sys.monitoring LINE
            failpoint, source-free).  Whatever the routine had half-written to module state stays.
+  prime    before every 4th call the routine is run to completion on the *same argument objects and options* holding
+           a renumbered copy of the input (one permutation applied to every node-indexed axis: same sum, same
+           number of connections, same extreme values, same validity), then the buffers are refilled with the
+           real input: a memo validated by object identity, by the options or by any renumbering-invariant
+           checksum is stale at the real call.
+  cross    before every 4th call a *sibling* routine (one of the two most recently used other routines whose leading
+           parameters have the same names, e.g. kcore_bu / kcore_bd, eigenvector_centrality_und /
+           subgraph_centrality, makerandCIJ_und / makerandCIJ_dir) is run to completion on the very same leading
+           arguments (its remaining options as in its own last call): state shared between two routines of a
+           family (a common memo, a cached mask) is then set up by the sibling.
+  spell    Python bool options are passed as np.bool_ or 0 / 1 on two calls out of three.
   poison   on odd calls the caller receives a deep copy of the result and the original arrays are overwritten
            (a caller may do what it likes with an array it was given): state that still points at them is now
            garbage and the next call that trusts it fails its post-conditions.
@@ -24,7 +35,10 @@ clause -- the damage shows up in the property's own post-conditions on the real 
 Switch off with BCTMON_HISTORY=0 (used to bisect a report).
 """
 import os
+import zlib
 import random as pyrandom
+import signal
+import time
 import sys
 
 import numpy as np
@@ -32,39 +46,114 @@ import numpy as np
 ENABLED = os.environ.get('BCTMON_HISTORY', '1') != '0'
 ABORT_POINTS = (2, 5, 9, 14, 22, 35, 60, 110, 200, 400)
 KEEP = 3
+PRIME_EVERY = 4
+CROSS_EVERY = 4
+SOFT_DEADLINE = 1.0   # seconds for any unjudged call of this layer (only while a case watchdog is armed)
 EVERY = 8     # an aborted pre-call before every 8th call of a routine (toggling LINE events de-specialises its bytecode)
+
+
+def _pick(name, n, salt):
+    """aperiodic but reproducible choice: a fixed period would always meet the same step of a workload's loop"""
+    return zlib.crc32(('%s:%d:%s' % (name, n, salt)).encode())
 
 
 class InjectedAbort(Exception):
     pass
 
 
+class PrimerTimeout(BaseException):
+    pass
+
+
+def _fresh_rngs(args, kwargs):
+    args = [np.random.RandomState(0) if isinstance(a, np.random.RandomState) else a for a in args]
+    kwargs = {k: (np.random.RandomState(0) if isinstance(a, np.random.RandomState) else a) for k, a in kwargs.items()}
+    return args, kwargs
+
+
 class History(object):
     TOOL = 5
 
     def __init__(self):
-        self.pool = {}      # (fname, param, shape, dtype) -> buffer
-        self.last = {}      # fname -> (args, kwargs) as passed last time
+        self.pool = {}      # (index among the array arguments, shape, dtype) -> buffer, shared by all routines
+        self.last = {}      # fname -> (arguments dict, args, kwargs) as passed last time
+        self.fns = {}       # fname -> raw function
+        self.recent = []    # most recently called routines, latest first
         self.kept = {}      # fname -> [(digest, [arrays], call_no)]
         self.n = {}         # fname -> call counter
         self.stats = {'reused_buffers': 0, 'fresh_buffers': 0, 'buffers_given_away': 0, 'aborted_precalls': 0,
-                      'precalls_completed': 0, 'poisoned_results': 0, 'stability_rechecks': 0}
-        self.last_actions = None
+                      'precalls_completed': 0, 'poisoned_results': 0, 'stability_rechecks': 0, 'primer_calls': 0,
+                      'primer_calls_raised': 0, 'sibling_calls': 0, 'respelled_flags': 0, 'sibling_calls_raised': 0, 'soft_deadline_hits': 0}
+        self.siblings_seen = {}
         self._mon_ok = None
         self._armed = None
+        self.originals = []
+        self.soft = False
+        self.banned = set()   # (kind, routine) whose unjudged call ran into the soft deadline once: not tried again
+
+    # ---------------------------------------------------------------- unjudged calls
+    def _run(self, fn, args, kwargs):
+        """run an unjudged call: fresh RNG objects, global generators restored, soft deadline inside the case watchdog.
+        Returns 'ok' | 'raised' | 'aborted' | 'deadline'."""
+        args, kwargs = _fresh_rngs(args, kwargs)
+        g_np = np.random.get_state()
+        g_py = pyrandom.getstate()
+        old = signal.getitimer(signal.ITIMER_REAL)
+        t0 = time.time()
+        if old[0] > 0:
+            self.soft = True
+            signal.setitimer(signal.ITIMER_REAL, min(SOFT_DEADLINE, old[0]))
+        try:
+            fn(*args, **kwargs)
+            return 'ok'
+        except InjectedAbort:
+            return 'aborted'
+        except PrimerTimeout:
+            self.stats['soft_deadline_hits'] += 1
+            return 'deadline'
+        except Exception:  # noqa -- any outcome of an unjudged call is a history
+            return 'raised'
+        finally:
+            if old[0] > 0:
+                self.soft = False
+                signal.setitimer(signal.ITIMER_REAL, max(old[0] - (time.time() - t0), 0.005))
+            np.random.set_state(g_np)
+            pyrandom.setstate(g_py)
+
+    # ---------------------------------------------------------------- spelling
+    def respell(self, name, bound):
+        """Python bool options are passed as np.bool_ or 0 / 1 on two calls out of three (what a comparison of numpy
+        values or a configuration file gives a caller); `copy` is left alone (its in-place meaning is the caller's)"""
+        n = self.n.get(name, 0)
+        done = None
+        for k, v in list(bound.arguments.items()):
+            if type(v) is bool and k != 'copy':
+                mode = _pick(name, n, 'b' + k) % 3
+                if mode == 1:
+                    bound.arguments[k] = np.bool_(v)
+                elif mode == 2:
+                    bound.arguments[k] = int(v)
+                if mode:
+                    done = (done or {})
+                    done[k] = repr(bound.arguments[k])
+                    self.stats['respelled_flags'] += 1
+        return done
 
     # ---------------------------------------------------------------- reuse
     def substitute(self, name, bound):
         """replace ndarray arguments by persistent buffers holding the same values"""
+        self.originals = []
         if bound.arguments.get('copy', True) is False:
             return []
         used = []
+        idx = -1
         for k, v in list(bound.arguments.items()):
-            if not isinstance(v, np.ndarray) or type(v) is not np.ndarray:
+            if not isinstance(v, np.ndarray):
                 continue
-            if v.size == 0 or not v.flags.c_contiguous or v.dtype == object or v.ndim == 0:
+            idx += 1
+            if type(v) is not np.ndarray or v.size == 0 or not v.flags.c_contiguous or v.dtype == object or v.ndim == 0:
                 continue
-            key = (name, k, v.shape, v.dtype.str)
+            key = (idx, v.shape, v.dtype.str)
             buf = self.pool.get(key)
             if buf is None:
                 buf = np.empty(v.shape, dtype=v.dtype)
@@ -75,6 +164,7 @@ class History(object):
             np.copyto(buf, v)
             bound.arguments[k] = buf
             used.append((key, buf))
+            self.originals.append(v)
         return used
 
     def release_aliased(self, used, result_arrays):
@@ -85,6 +175,18 @@ class History(object):
                         del self.pool[key]
                         self.stats['buffers_given_away'] += 1
                     break
+
+    def remember(self, name, fn, bound):
+        self.fns[name] = fn
+        if bound.arguments.get('copy', True) is False:
+            self.last.pop(name, None)      # never re-run an in-place call on the caller's own array
+        else:
+            self.last[name] = (dict(bound.arguments), bound.args, bound.kwargs)
+        if not self.recent or self.recent[0] != name:
+            if name in self.recent:
+                self.recent.remove(name)
+            self.recent.insert(0, name)
+            del self.recent[12:]
 
     # ---------------------------------------------------------------- abort
     def _monitoring(self):
@@ -110,43 +212,104 @@ class History(object):
             raise InjectedAbort('failpoint at %s:%d' % (code.co_name, line))
 
     def precall(self, name, fn):
-        """start the previous call again and kill it part-way; True if it was aborted"""
+        """start the previous call again and kill it part-way; returns the line-event count of the abort, 0 if the
+        call completed first, None if not attempted"""
         prev = self.last.get(name)
-        if prev is None or not self._monitoring():
+        if prev is None or not self._monitoring() or ('abort', name) in self.banned:
             return None
         n = self.n.get(name, 0)
-        if n % EVERY != 1:
+        if _pick(name, n, 'a') % EVERY:
             return None
         code = getattr(fn, '__code__', None)
         if code is None:
             return None
-        args, kwargs = prev
-        args = [np.random.RandomState(0) if isinstance(a, np.random.RandomState) else a for a in args]
-        kwargs = {k: (np.random.RandomState(0) if isinstance(a, np.random.RandomState) else a) for k, a in kwargs.items()}
-        j = ABORT_POINTS[(n // EVERY) % len(ABORT_POINTS)]
+        j = ABORT_POINTS[_pick(name, n, 'j') % len(ABORT_POINTS)]
         mon = sys.monitoring
-        g_np = np.random.get_state()
-        g_py = pyrandom.getstate()
         self._armed = [code, j, 0]
         mon.set_local_events(self.TOOL, code, mon.events.LINE)
-        aborted = False
         try:
-            fn(*args, **kwargs)
-        except InjectedAbort:
-            aborted = True
-        except Exception:  # noqa -- the old arguments may have been edited by the caller since; any outcome is a history
-            pass
+            out = self._run(fn, prev[1], prev[2])
         finally:
             fired = self._armed[2]
             self._armed = None
             mon.set_local_events(self.TOOL, code, 0)
-            np.random.set_state(g_np)
-            pyrandom.setstate(g_py)
-        if aborted or fired:
+        if out == 'deadline':
+            self.banned.add(('abort', name))
+        if out == 'aborted' or fired:
             self.stats['aborted_precalls'] += 1
-        else:
-            self.stats['precalls_completed'] += 1
-        return j if (aborted or fired) else 0
+            return j
+        self.stats['precalls_completed'] += 1
+        return 0
+
+    # ---------------------------------------------------------------- prime
+    def prime(self, name, fn, bound, used, originals, n_arrays):
+        """complete call on the same objects / options with renumbered contents; buffers restored afterwards"""
+        n = self.n.get(name, 0)
+        if _pick(name, n, 'p') % PRIME_EVERY or not used or len(used) != n_arrays or ('prime', name) in self.banned:
+            return False
+        size = None
+        for key, buf in used:
+            if buf.ndim >= 2 and buf.shape[0] == buf.shape[1]:
+                size = buf.shape[0]
+                break
+        if size is None or size < 3:
+            return False
+        perm = np.random.RandomState(n * 7919 + size).permutation(size)
+        try:
+            for key, buf in used:
+                if buf.ndim >= 2 and buf.shape[0] == buf.shape[1] == size:
+                    buf[...] = buf[perm][:, perm]
+                elif buf.shape[0] == size:
+                    buf[...] = buf[perm]
+            self.stats['primer_calls'] += 1
+            out = self._run(fn, bound.args, bound.kwargs)
+            if out != 'ok':
+                self.stats['primer_calls_raised'] += 1
+            if out == 'deadline':
+                self.banned.add(('prime', name))
+        finally:
+            for (key, buf), v in zip(used, originals):
+                np.copyto(buf, v)
+        return True
+
+    # ---------------------------------------------------------------- cross
+    def cross(self, name, bound):
+        """a sibling routine is run first on the same leading arguments; returns its name or None"""
+        n = self.n.get(name, 0)
+        if _pick(name, n, 'x') % CROSS_EVERY or bound.arguments.get('copy', True) is False:
+            return None
+        mine = list(bound.arguments.items())
+        if not mine:
+            return None
+        cands = [g for g in self.recent if g != name and g in self.last and ('cross', g) not in self.banned and
+                 next(iter(self.last[g][0]), None) == mine[0][0]][:2]
+        if not cands:
+            return None
+        g = cands[_pick(name, n, 'g') % len(cands)]
+        gargs = dict(self.last[g][0])
+        for (k, v), gk in zip(mine, list(gargs)):
+            if k != gk:
+                break
+            if isinstance(v, np.ndarray) != isinstance(gargs[gk], np.ndarray):
+                break
+            if not isinstance(v, np.ndarray):
+                # a scalar (a size, a count) is handed over only if the sibling has itself been called with one at
+                # least as large: pick_four_unique_nodes_quickly(70000) must not become makerandCIJ_und(70000, ...)
+                if not (type(v) in (int, float) and type(gargs[gk]) in (int, float) and 0 <= v <= gargs[gk]):
+                    break
+            gargs[gk] = v
+        fn = self.fns[g]
+        self.stats['sibling_calls'] += 1
+        self.siblings_seen[(g, name)] = self.siblings_seen.get((g, name), 0) + 1
+        try:
+            out = self._run(fn, [], gargs)
+        except TypeError:
+            out = 'raised'
+        if out != 'ok':
+            self.stats['sibling_calls_raised'] += 1
+        if out == 'deadline':
+            self.banned.add(('cross', g))   # outside its domain on this family's inputs (it loops): not a sibling here
+        return g
 
     # ---------------------------------------------------------------- results
     @staticmethod
